@@ -7,6 +7,8 @@ Proofs: Lemmas/CheckPandas.lean.
 import TddaVerif.Model.CheckPandas
 import TddaVerif.Props.C05Spec
 import TddaVerif.Lemmas.CheckPandas
+import TddaVerif.Model.Round
+import TddaVerif.Lemmas.Round
 
 namespace TddaVerif.Props.C05
 open TddaVerif.Py TddaVerif.CheckPandas
@@ -80,6 +82,47 @@ theorem swap_changes_order (pre mid post : List Line) (a b : Line) (hab : a ≠ 
     (pre ++ b :: mid ++ a :: post).filter (fun c => (pre ++ a :: mid ++ b :: post).contains c && (pre ++ a :: mid ++ b :: post).contains c)
       ≠ (pre ++ a :: mid ++ b :: post).filter (fun c => (pre ++ a :: mid ++ b :: post).contains c && (pre ++ b :: mid ++ a :: post).contains c) :=
   Lemmas.swap_changes_order pre mid post a b hab hnd
+
+/-! ### values: equal after rounding to the requested precision (numpy.round on exact values; Model/Round.lean) -/
+section rounding
+open TddaVerif.Round
+abbrev absR := @RoundLemmas.absR
+
+/-- rounding moves a value by at most half a unit of the last place kept -/
+theorem roundTo_close (p : Nat) (x : Rat) : absR (roundTo p x - x) ≤ 1 / (2 * pow10 p) :=
+  RoundLemmas.roundTo_close p x
+
+/-- a value on the grid of the precision is left alone -/
+theorem roundTo_grid (p : Nat) (k : Int) : roundTo p ((k : Rat) / pow10 p) = (k : Rat) / pow10 p :=
+  RoundLemmas.roundTo_grid p k
+
+/-- two values further apart than one unit of the last place kept never compare equal:
+    changing a checked value by more than the precision always fails -/
+theorem far_apart_differ (p : Nat) (x y : Rat) (h : absR (x - y) > 1 / pow10 p) : roundTo p x ≠ roundTo p y :=
+  RoundLemmas.far_apart_differ p x y h
+
+theorem cellsEqual_far (p : Nat) (x y : Rat) (h : absR (x - y) > 1 / pow10 p) :
+    cellsEqual p (some x) (some y) = false :=
+  RoundLemmas.cellsEqual_far p x y h
+
+/-- equal values compare equal; a null equals only a null -/
+theorem cellsEqual_refl (p : Nat) (x : Option Rat) : cellsEqual p x x = true :=
+  RoundLemmas.cellsEqual_refl p x
+
+theorem cellsEqual_null (p : Nat) (x : Rat) : cellsEqual p none (some x) = false ∧ cellsEqual p (some x) none = false :=
+  RoundLemmas.cellsEqual_null p x
+
+theorem cellsEqual_symm (p : Nat) (x y : Option Rat) : cellsEqual p x y = cellsEqual p y x :=
+  RoundLemmas.cellsEqual_symm p x y
+
+/-- values within the same rounding cell compare equal: both round to the same grid point `k / 10^p` when they lie
+    strictly within half a unit of it -/
+theorem cellsEqual_near_grid (p : Nat) (k : Int) (x y : Rat)
+    (hx : absR (x - (k : Rat) / pow10 p) < 1 / (2 * pow10 p)) (hy : absR (y - (k : Rat) / pow10 p) < 1 / (2 * pow10 p)) :
+    cellsEqual p (some x) (some y) = true :=
+  RoundLemmas.cellsEqual_near_grid p k x y hx hy
+
+end rounding
 
 /- non-vacuity: a two-column frame, medium matching, int64 vs Int32 agree, int64 vs float64 do not -/
 example : typesMatch "int64".toList "Int32".toList .medium = true := by decide
